@@ -81,6 +81,22 @@ def cases(tier, rng):
             out.append((prior_case([]), "prior"))
             out.append((useq_case([], t, m), "masked-right"))
             out.append((useq_case([], m, t), "masked-left"))
+    # (c'') wide complex terms (arity 7-12) with $_ opposite constants, variables and compound terms at every position
+    consts = [atom("a"), integer(1), flt(2.5), atom("b"), lst([atom("c")]), cplx("f", atom("a")), X, EMPTY, atom("d"), integer(7), atom("e"), atom("g")]
+    for ar in (7, 8, 9, 12):
+        full = cplx("rec", *consts[:ar])
+        for pos in range(ar):
+            m = cplx("rec", *[ANON if k == pos else consts[k] for k in range(ar)])
+            out.append((prior_case([]), "prior"))
+            out.append((useq_case([], full, m), "masked-right")); out.append((useq_case([], m, full), "masked-left"))
+        m2 = cplx("rec", *[ANON if k % 2 else consts[k] for k in range(ar)])
+        out.append((useq_case([], full, m2), "masked-right")); out.append((useq_case([], m2, full), "masked-left"))
+    # (e) through the solver: a predicate of 9 / 20 clauses with constant first arguments called with $_ in each argument position
+    from gen import progs
+    for nclauses in (3, 8, 9, 20):
+        facts = [progs.fact("planet", atom("p%d" % k), integer(k)) for k in range(nclauses)]
+        for q in ([atom("planet"), ANON, var(0, "$N")], [atom("planet"), var(0, "$P"), ANON], [atom("planet"), ANON, ANON], [atom("planet"), ANON, integer(2)]):
+            out.append((progs.single_query_case(facts, q, nclauses + 2), "solver-anon"))
     # (d) a term t in which the variable v occurs exactly once, against an instance g of t (v replaced by a fresh
     #     variable or a ground term, every other variable by a ground term): the same with v replaced by $_ must
     #     give the same bindings except the one of (or to) v - the other positions still bind
@@ -106,7 +122,8 @@ RULE = ("(a) x = $_ and $_ = x for every x of the 119-term universe plus functio
         "sub-terms (arguments, list elements, list tails, nested terms) replaced by $_ (also big terms: depth <= 5, 12-element lists, colliding ids); (d) every universe term t in which a variable v occurs exactly once "
         "against an instance of t (v replaced by a fresh variable or a ground term, the other variables by ground terms), in both orders, and the same with v replaced by $_. "
         "Relations on the implementation's results: (d) the bindings are those of the run with v, minus the binding of (or to) v; (a),(c) succeed and return the prior set unchanged; (b) both sequences give the same result; no result "
-        "binds a variable to $_. Non-trivial = the case contains $_ and the prior or the sequence binds something.")
+        "binds a variable to $_. (c'') complex terms of arity 7-12 with $_ at every position; (e) through the solver: predicates of 3-20 facts called with $_ in each argument position (one answer per clause). "
+        "Non-trivial = the case contains $_ and the prior or the sequence binds something.")
 
 def nontrivial(case, tag, result):
     return "anon" in case and "(v " in result
@@ -151,6 +168,17 @@ def relations(cases, impl):
                 yield dict(case=case, tag=tag, cases=[cases[idx - 1][0], case],
                            why="replacing a variable that occurs once by $_ must change nothing but that variable's own binding",
                            implementation=dict(with_variable=impl[idx - 1][1], with_anon=res))
+            continue
+        if tag == "solver-anon":
+            # $_ in a goal matches the argument of EVERY clause: with $_ first and $N second, one answer per clause
+            c = parse(case)
+            nfacts = case.count("(rule ")
+            qargs = [x for x in c[2][3:]] if c[2][0] == "build" else []
+            want = nfacts if all(a == "anon" or (isinstance(a, list) and a[0] == "v") for a in qargs) else 1
+            got = res.count("(ans (ss")
+            REL_STATS["solver_anon_queries"] = REL_STATS.get("solver_anon_queries", 0) + 1
+            if got != want:
+                yield dict(case=case, tag=tag, why="a goal with $_ must match every clause: %d answers expected, %d given" % (want, got), implementation=dict(result=res[:600]))
             continue
         if tag == "seq-stripped" and idx > 0 and cases[idx - 1][1] == "seq-with-anon":
             full_case = cases[idx - 1][0]; full_res = impl[idx - 1][1]
